@@ -234,8 +234,11 @@ def run(chk: core.Check):
     from schemathesis.core import _verif
 
     abort_exprs, abort_obs = [], []
-    for k in range((4 if quick else 30) * (3 if chk.broken else 1)):
-        where = rng.choice(["c_get", "c_post", "producer_init", "handler"])
+    wheres = ["handler", "c_get", "c_post", "producer_init", "handler", "handler"]
+    for k in range((6 if quick else 36) * (3 if chk.broken else 1)):
+        where = wheres[k] if k < len(wheres) else rng.choice(wheres)      # every kind of fault in every run
+        hev = ["ScenarioFinished", "PhaseFinished", "ScenarioStarted", "EngineFinished", "PhaseStarted"][k % 5] if k < 10 else rng.choice(
+            ["ScenarioFinished", "PhaseFinished", "ScenarioStarted", "EngineFinished", "PhaseStarted", "EngineStarted"])
         nth = rng.randint(1, 3)
         n_ops = rng.randint(1, 2)
 
@@ -263,8 +266,8 @@ def run(chk: core.Check):
 
             orig = OutputHandler.handle_event
 
-            def boom(self, ctx, event, orig=orig):
-                if type(event).__name__ == "ScenarioFinished":
+            def boom(self, ctx, event, orig=orig, hev=hev):
+                if type(event).__name__ == hev:
                     raise RuntimeError("injected in a report handler")
                 return orig(self, ctx, event)
 
@@ -280,6 +283,8 @@ def run(chk: core.Check):
                 pt.stop()
             _verif.set_controller(None)
         cfg = {"main_thread_fault": where, "nth": nth, "ops": n_ops}
+        if where == "handler":
+            cfg["handler_event"] = hev
         if where in ("c_get", "c_post") and not mf.fired:
             continue  # the run ended before the n-th visit of that point: nothing was injected
         chk.seen({"cli_abort": cfg}, True)
